@@ -344,6 +344,16 @@ class Parser:
         if v == 'while':
             self.next()
             if self.accept('let'):
+                if self.peek()[1] == 'Some':
+                    # `while let Some(x) = e { body }`: `loop { if let Some(x) = e { body } else { break } }`
+                    self.next()
+                    self.expect('(')
+                    var = self.next()[1]
+                    self.expect(')')
+                    self.expect('=')
+                    scrut = self.parse_expr()
+                    b = self.parse_block()
+                    return ('while', ('bool', True), ('block', [('expr_nosemi', ('ifsome', var, scrut, b, ('block', [('break',)])))]))
                 pat = self.parse_slice_pat()
                 self.expect('=')
                 scrut = self.parse_expr()
@@ -397,6 +407,10 @@ class Parser:
             return ('while', ('bool', True), b)
         if v in ('break', 'continue'):
             self.next()
+            if v == 'break' and self.peek()[1] not in (';', '}', ','):
+                e = self.parse_expr()
+                self.accept(';')
+                return ('breakval', e)          # `break value` of a `loop` in tail position (see desugar)
             self.accept(';')
             return (v,)
         e = self.parse_expr()
@@ -849,6 +863,22 @@ class Emitter:
             lo_, _ = self.expr(e[2][1], env, 'usize')
             hi_, _ = self.expr(e[2][2], env, 'usize')
             return '((%s.drop %s).take (%s - %s))' % (s_, lo_, hi_, lo_), 'slice'   # `&xs[a..b]` panics unless a ≤ b ≤ len
+        if k == 'isok':
+            sx, _ = self.expr(e[1], env)
+            return '(Rs.isOk %s)' % sx, 'bool'
+        if k in ('okget', 'errget'):
+            sx, tx = self.expr(e[1], env)
+            if not (isinstance(tx, tuple) and tx[0] == 'result'):
+                raise TranslateError('Ok / Err pattern against a non-Result')
+            if k == 'okget':
+                return '(Rs.okD %s %s)' % (self.default_of(tx[1]), sx), tx[1]
+            return '(Rs.errD %s %s)' % (self.default_of(tx[2]), sx), tx[2]
+        if k == 'issome':
+            sx, _ = self.expr(e[1], env)
+            return '((%s).isSome)' % sx, 'bool'
+        if k == 'getsome':
+            sx, tx = self.expr(e[1], env)
+            return '((%s).getD %s)' % (sx, self.default_of(tx[1])), tx[1]
         if k == 'panic':
             # `unreachable!()` / `panic!()` in VALUE position (a match arm inside an expression): the arm's value is the default
             # of its type; the tie theorems show such an arm is not taken on their domain (the hand models return `panic` there)
@@ -1221,6 +1251,15 @@ class Emitter:
             if t == 'bool':
                 return '(%s).toNat' % s, head
             return s, head
+        if path == ['Self', 'try_from'] and getattr(self, 'uint_mode', False) == 'value' and len(args) == 1 and args[0][0] == 'lit':
+            # `Self::try_from(k)` for an integer literal: `Ok(k)` when k fits the width, else `Err(ValueTooLarge(BITS, k mod 2^BITS))`
+            k_ = args[0][1]
+            return ('(if decide (%d < 2 ^ BITS) then (Except.ok %d : Except (Nat × Nat × Nat) Nat) else Except.error (0, BITS, %d %% 2 ^ BITS))'
+                    % (k_, k_, k_)), ('result', 'uint', ('enum', 'ToUintErrorV', []))
+        if path == ['Self', 'from'] and getattr(self, 'uint_mode', False) == 'value' and len(args) == 1:
+            # `Self::from(k)` panics when k does not fit the width
+            sk, _ = self.expr(args[0], env, 'usize')
+            return '(if decide (%s < 2 ^ BITS) then some %s else none)' % (sk, sk), ('option', 'uint')
         if path == ['Self', 'from'] and getattr(self, 'uint_mode', False) is True and len(args) == 1 and args[0][0] == 'lit':
             # `Self::from(k)` for a literal: the limbs of k (`from` panics when k does not fit; callers use small k)
             return '(Ruint.toLimbs LIMBS %d)' % args[0][1], 'uint'
@@ -1251,6 +1290,11 @@ class Emitter:
         raise TranslateError('unsupported call %s' % '::'.join(path))
 
     def enum_slots(self, et):
+        if et[1] == 'ToUintErrorV':
+            return ['usize', 'uint']           # value mode: (variant, bits, wrapped value)
+        return self.enum_slots0(et)
+
+    def enum_slots0(self, et):
         """field slot types of an enum type ('enum', name, type args): position k holds the k-th field of whichever variant has
         one (the variants must agree on its type); the value of the enum is (variant index, slot 1, …, padded with defaults)"""
         name, targs = et[1], et[2]
@@ -1325,6 +1369,13 @@ class Emitter:
         # C03 / C02: `checked_div` is `None` for a zero divisor, `checked_mul` is `None` exactly when the product does not fit
         'checked_div': ('(if %s == 0 then none else some (%s / %s))', ('option', 'uint')),
         'checked_mul': ('(if decide (%s * %s < 2 ^ BITS) then some (%s * %s) else none)', ('option', 'uint')),
+        # C13 / C01 / C05 / C06 / C07: value-level meanings used by log / root
+        'checked_pow': ('(if decide (%s ^ %s < 2 ^ BITS) then some (%s ^ %s) else none)', ('option', 'uint')),
+        'checked_add': ('(if decide (%s + %s < 2 ^ BITS) then some (%s + %s) else none)', ('option', 'uint')),
+        'saturating_shl': ('(if decide (%s * 2 ^ %s < 2 ^ BITS) then %s * 2 ^ %s else 2 ^ BITS - 1)', 'uint'),
+        'bit_len': ('(if %s == 0 then 0 else Nat.log2 %s + 1)', 'usize'),
+        # `x.to::<usize>()` of a value that fits (the callers convert logarithms, which are at most BITS)
+        'to': ('%s', 'usize'),
     }
 
     def mcall(self, e, env, exp):
@@ -1358,8 +1409,12 @@ class Emitter:
                 aa = [self.expr(a, env, 'uint' if name != 'bit' else 'usize')[0] for a in args]
                 if name == 'bit':
                     return '(' + tmpl % (aa[0], sr, aa[0]) + ')', rt
-                if name in ('overflowing_mul', 'overflowing_add', 'checked_mul'):
+                if name == 'saturating_shl':
+                    aa = [self.expr(a, env, 'usize')[0] for a in args]
+                if name in ('overflowing_mul', 'overflowing_add', 'checked_mul', 'checked_pow', 'checked_add', 'saturating_shl'):
                     return '(' + tmpl % (sr, aa[0], sr, aa[0]) + ')', rt
+                if name == 'bit_len':
+                    return '(' + tmpl % (sr, sr) + ')', rt
                 if name == 'checked_div':
                     return '(' + tmpl % (aa[0], sr, aa[0]) + ')', rt
                 return '(' + tmpl % tuple([sr] + aa) + ')', rt
@@ -1429,6 +1484,9 @@ class Emitter:
             env2[x] = 'u64'
             sb, _ = self.expr(args[0][2], env2, 'bool')
             return '(%s.any (fun %s => %s))' % (sr, lean_ident(x), sb), 'bool'
+        if tr == 'bool' and name == 'then_some' and len(args) == 1:
+            sv, tv = self.expr(args[0], env, exp[1] if isinstance(exp, tuple) and exp[0] == 'option' else None)
+            return '(if %s then some %s else none)' % (sr, sv), ('option', tv)
         if tr in ('uint', 'slice', 'mutslice') and name == 'last' and not args:
             return '(%s).getLast?' % sr, ('option', 'u64')
         if tr in ('uint', 'slice', 'mutslice') and name == 'first' and not args:
@@ -1559,6 +1617,8 @@ class Emitter:
         if e[0] == 'mcall' and e[2] in ('expect', 'unwrap'):
             return True
         if e[0] == 'call' and ('::'.join(e[1]) in getattr(self, 'panic_externs', ()) or e[1][-1] in getattr(self, 'panic_externs', ())):
+            return True
+        if e[0] == 'call' and e[1] == ['Self', 'from'] and getattr(self, 'uint_mode', False) == 'value':
             return True
         if e[0] == 'call' and e[1][0] == 'Self' and len(e[1]) == 2 and e[1][1] in getattr(self, 'call_alias', {}):
             sig = self.fns.get(self.call_alias[e[1][1]], ())
@@ -1979,10 +2039,31 @@ class Emitter:
             env[t] = te
             body, tb = self.stmts(chain[1] + rest, env, exp, result)
             return 'let %s := %s\n  %s' % (t, se, body), tb
-        if k in ('let', 'assign', 'return', 'tail', 'expr', 'expr_nosemi') and getattr(self, 'panics', False):
+        if k in ('let', 'assign', 'return', 'tail', 'expr', 'expr_nosemi', 'assert') and getattr(self, 'panics', False):
             # calls that can panic (and `?`) are bound by their own `let` first, in evaluation order
             pre = []
             pos = {'let': 3, 'assign': 2}.get(k, 1)
+            if k in ('expr', 'expr_nosemi', 'tail') and isinstance(s[1], tuple) and s[1] and s[1][0] == 'if':
+                # an `if`: its condition is evaluated first
+                pre0 = []
+
+                def hoistc(e):
+                    if isinstance(e, list):
+                        return [hoistc(x) for x in e]
+                    if not isinstance(e, tuple) or not e:
+                        return e
+                    if e[0] in ('closure', 'block', 'if', 'iflet', 'ifsome', 'match'):
+                        return e
+                    e = tuple(hoistc(x) for x in e)
+                    if self.panicking(e) or e[0] == 'try':
+                        self.tmp = getattr(self, 'tmp', 0) + 1
+                        t = 'pv%d' % self.tmp
+                        pre0.append(('let', ('pid', t), None, e))
+                        return ('path', [t])
+                    return e
+                nc = hoistc(s[1][1])
+                if pre0:
+                    return self.stmts(pre0 + [(k, ('if', nc) + tuple(s[1][2:]))] + rest, env, exp, result)
 
             def hoist(e, root):
                 if isinstance(e, list):
@@ -2010,6 +2091,11 @@ class Emitter:
                 raise TranslateError('panic arm in a function not recorded as panicking')
             sm, _ = self.match_ret(s[1], env, result)
             return sm, self.cur_rt
+        if k in ('tail', 'expr', 'expr_nosemi') and s[1] == ('panic',):
+            # `panic!(..)` / `unreachable!()` as a statement: the function panics here
+            if not getattr(self, 'panics', False):
+                raise TranslateError('panic in a function not recorded as panicking')
+            return self.panic_value(result, env), self.cur_rt
         if k == 'assert':
             if not getattr(self, 'panics', False):
                 raise TranslateError('assert! in a function not recorded as panicking')
@@ -2046,8 +2132,19 @@ class Emitter:
             return 'match %s with\n  | none => %s\n  | some %s => (\n  %s)' % (so, pv_, lean_ident(s[1][1]), body), tb
         if k in ('expr', 'expr_nosemi', 'tail') and s[1][0] == 'ifsome':
             _, var, scrut, a, b = s[1]
-            if b is None or not self.ends_with_return(b) or self.has_return(a):
-                raise TranslateError('unsupported form of `if let Some(..)`')
+            if b is None or not self.ends_with_return(b) or self.has_return(a) or b[1][-1][0] != 'return':
+                # general form: bind the option, then an ordinary `if` on `is_some()` whose first branch starts with the binding
+                self.tmp = getattr(self, 'tmp', 0) + 1
+                t = 'opt%d' % self.tmp
+                so, to = self.expr(scrut, env, None)
+                if not (isinstance(to, tuple) and to[0] == 'option'):
+                    raise TranslateError('`if let Some(..)` on a non-Option')
+                env[t] = to
+                tp = ('path', [t])
+                newif = ('if', ('issome', tp), ('block', [('let', ('pid', var), None, ('getsome', tp))] + a[1]),
+                         b if b is not None else None)
+                body, tb = self.stmts([('expr_nosemi', newif)] + rest, env, exp, result)
+                return 'let %s := %s\n  %s' % (t, so, body), tb
             so, to = self.expr(scrut, env, None)
             if not (isinstance(to, tuple) and to[0] == 'option'):
                 raise TranslateError('`if let Some(..)` on a non-Option')
@@ -2483,6 +2580,40 @@ class Emitter:
             lst = list(lst)
             while lst:
                 st = lst.pop(0)
+                if st[0] in ('tail', 'return') and isinstance(st[1], tuple) and st[1] and st[1][0] == 'match' and len(st[1][2]) == 2 \
+                        and all(p_[0] == 'mctor' and p_[1] in (['Ok'], ['Err']) and len(p_[2]) == 1
+                                and p_[2][0][0] in ('mbind', 'mwild') for p_, _ in st[1][2]) \
+                        and sorted(p_[1][0] for p_, _ in st[1][2]) == ['Err', 'Ok'] and not lst:
+                    # `match res { Ok(x) => A, Err(e) => B }` in return position: an `if` on `is_ok()`, the arms as the branches
+                    cnt[0] += 1
+                    t_ = 'res_v%d' % cnt[0]
+                    tp_ = ('path', [t_])
+                    out.append(('let', ('pid', t_), None, ex(st[1][1])))
+                    br = {}
+                    for p_, body_ in st[1][2]:
+                        pre_ = []
+                        if p_[2][0][0] == 'mbind':
+                            pre_ = [('let', ('pid', p_[2][0][1]), None, ('okget' if p_[1] == ['Ok'] else 'errget', tp_))]
+                        if isinstance(body_, tuple) and body_ and body_[0] == 'block':
+                            bs_ = list(body_[1])
+                        else:
+                            bs_ = [('tail', body_)]
+                        br[p_[1][0]] = ('block', pre_ + stmts(bs_))
+                    out.append(('tail', ('if', ('isok', tp_), br['Ok'], br['Err'])))
+                    continue
+                if st[0] in ('expr', 'expr_nosemi', 'tail') and isinstance(st[1], tuple) and st[1] and st[1][0] == 'ifsome':
+                    _, var_, scrut_, a_, b_ = st[1]
+                    special = b_ is not None and bool(b_[1]) and b_[1][-1][0] == 'return' and not self.has_return(a_)
+                    if not special:
+                        # general `if let Some(x) = e { A } else { B }`: bind the option, then an ordinary `if` on `is_some()`
+                        cnt[0] += 1
+                        t_ = 'opt_v%d' % cnt[0]
+                        tp_ = ('path', [t_])
+                        out.append(('let', ('pid', t_), None, ex(scrut_)))
+                        nb_ = ('block', stmts(b_[1])) if b_ is not None else None
+                        out.append(('expr_nosemi', ('if', ('issome', tp_),
+                                                    ('block', [('let', ('pid', var_), None, ('getsome', tp_))] + stmts(a_[1])), nb_)))
+                        continue
                 if (st[0] == 'let' and st[1][0] == 'pid' and isinstance(st[3], tuple) and st[3][0] == 'mcall'
                         and st[3][2] == 'into_iter' and not st[3][3] and st[3][1][0] == 'path' and len(st[3][1][1]) == 1):
                     # `let mut iter = digits.into_iter();`: the iterator is the sequence plus a position
@@ -2562,7 +2693,20 @@ class Emitter:
                     continue
                 out.append(ex(st))
             return out
-        return ('block', stmts(blk[1]))
+        body = stmts(blk[1])
+        if body and body[-1][0] == 'while' and body[-1][1] == ('bool', True):
+            def brk(node):
+                if isinstance(node, list):
+                    return [brk(x) for x in node]
+                if isinstance(node, tuple):
+                    if node and node[0] == 'breakval':
+                        return ('return', node[1])
+                    if node and node[0] in ('while', 'for', 'foreach', 'closure'):
+                        return node
+                    return tuple(brk(x) for x in node)
+                return node
+            body[-1] = ('while', body[-1][1], brk(body[-1][2]))
+        return ('block', body)
 
     def function(self, fn, lean_name):
         self.consts = {}
@@ -2593,6 +2737,8 @@ class Emitter:
                 if node[0] == 'mcall' and node[2] in ('expect', 'unwrap'):
                     return True
                 if node[0] in ('assert', 'panic'):
+                    return True
+                if node[0] == 'call' and node[1] == ['Self', 'from'] and getattr(self, 'uint_mode', False) == 'value':
                     return True
                 if node[0] == 'call' and ('::'.join(node[1]) in getattr(self, 'panic_externs', ())
                                           or node[1][-1] in getattr(self, 'panic_externs', ())):
@@ -3193,6 +3339,28 @@ def macro_items(repo):
     return [{'file': repo + '/ruint-macro/src/lib.rs', 'fn': 'pad_limbs', 'lean': 'macro_pad_limbs', 'group': 'macro'}]
 
 
+def log_value_items(repo):
+    """src/log.rs in value mode: `log` with the libm-derived first estimate as a parameter (declared rewrite: the three lines
+    computing `approx_log2() / approx_log2()` and converting it are replaced by `est`), its two correction loops
+    (`if let Some` / `while let Some` over `checked_pow` / `checked_add`), and the wrappers `checked_log`, `checked_log2/10`, `log2/10`"""
+    f = repo + '/src/log.rs'
+    u = {'uint': 'value', 'group': 'logv', 'self_ty': 'uint', 'file': f}
+    rw = [(r'let result = self\.approx_log2\(\) / base\.approx_log2\(\);\s*(?://[^\n]*\s*)*assert!\(result\.is_normal\(\)\);\s*let mut result = result\.try_into\(\)\.unwrap\(\);',
+           'let mut result = est;'),
+          (r'fn log\(self, base: Self\) -> usize', 'fn log(self, base: Self, est: Self) -> usize')]
+    est = [(r'self\.log\(base\)', 'self.log(base, est)')]
+    cl = [(r'self\.checked_log\(base\)', 'self.checked_log(base, est)')]
+    return [dict(u, fn='log', lean='val_log', key='UintV::log', rewrite=rw),
+            dict(u, fn='checked_log', lean='val_checked_log', key='UintV::checked_log',
+                 rewrite=est + [(r'fn checked_log\(self, base: Self\)', 'fn checked_log(self, base: Self, est: Self)')]),
+            dict(u, fn='checked_log10', lean='val_checked_log10', key='UintV::checked_log10',
+                 rewrite=cl + [(r'fn checked_log10\(self\)', 'fn checked_log10(self, est: Self)')]),
+            dict(u, fn='checked_log2', lean='val_checked_log2', key='UintV::checked_log2',
+                 rewrite=cl + [(r'fn checked_log2\(self\)', 'fn checked_log2(self, est: Self)')]),
+            dict(u, fn='log10', lean='val_log10', key='UintV::log10', rewrite=est + [(r'fn log10\(self\)', 'fn log10(self, est: Self)')]),
+            dict(u, fn='log2', lean='val_log2', key='UintV::log2', rewrite=est + [(r'fn log2\(self\)', 'fn log2(self, est: Self)')])]
+
+
 def radix_items(repo):
     """src/base_convert.rs: digit-sequence conversions (limb mode; errors are (variant index, fields))"""
     f = repo + '/src/base_convert.rs'
@@ -3225,7 +3393,8 @@ GROUPS = [('core', 'Words', ('Ruint.Gen.Prelude',)),
           ('folds', 'WordsFolds', ('Ruint.Gen.WordsUint',)),
           ('macro', 'WordsMacro', ('Ruint.Gen.Prelude',)),
           ('value', 'WordsValue', ('Ruint.Gen.Prelude', 'Ruint.Model.Modular')),
-          ('gcdv', 'WordsGcd', ('Ruint.Gen.Prelude', 'Ruint.Model.Gcd'))]
+          ('gcdv', 'WordsGcd', ('Ruint.Gen.Prelude', 'Ruint.Model.Gcd')),
+          ('logv', 'WordsLog', ('Ruint.Gen.WordsValue', 'Ruint.Gen.PreludeRes'))]
 
 
 def translate_all(repo):
@@ -3253,6 +3422,7 @@ def translate_all(repo):
     items += macro_items(repo)
     items += value_items(repo)
     items += gcd_value_items(repo)
+    items += log_value_items(repo)
     try:
         items += lehmer_items(repo)
     except (OSError, IOError) as ex:
